@@ -134,7 +134,7 @@ func (s LocalStore) Verify(ctx context.Context, n int, repair bool, w io.Writer)
 
 	// Go trough all chunks underneath Base, filtering out other files, then feed
 	// the IDs to the workers
-	err := filepath.Walk(s.walkRoot(), func(path string, info os.FileInfo, err error) error {
+	err := s.walk(func(path string, info os.FileInfo, err error) error {
 		// See if we're meant to stop
 		select {
 		case <-ctx.Done():
@@ -179,7 +179,7 @@ func (s LocalStore) Verify(ctx context.Context, n int, repair bool, w io.Writer)
 // of chunks
 func (s LocalStore) Prune(ctx context.Context, ids map[ChunkID]struct{}) error {
 	// Go trough all chunks underneath Base, filtering out other directories and files
-	err := filepath.Walk(s.walkRoot(), func(path string, info os.FileInfo, err error) error {
+	err := s.walk(func(path string, info os.FileInfo, err error) error {
 		// See if we're meant to stop
 		select {
 		case <-ctx.Done():
@@ -268,6 +268,24 @@ func (s LocalStore) walkRoot() string {
 		return root
 	}
 	return s.Base
+}
+
+// walk calls fn for everything in the store like filepath.Walk, which doesn't
+// follow symlinks, would. Prefix directories that are symlinks to directories
+// elsewhere (a store spread over several disks) are walked as well, the store
+// serves the chunks in them.
+func (s LocalStore) walk(fn filepath.WalkFunc) error {
+	root := s.walkRoot()
+	return filepath.Walk(root, func(path string, info os.FileInfo, err error) error {
+		if err == nil && info.Mode()&os.ModeSymlink != 0 && filepath.Dir(path) == root {
+			if target, e := filepath.EvalSymlinks(path); e == nil {
+				if ti, e := os.Stat(target); e == nil && ti.IsDir() {
+					return filepath.Walk(target, fn)
+				}
+			}
+		}
+		return fn(path, info, err)
+	})
 }
 
 func (s LocalStore) nameFromID(id ChunkID) (dir, name string) {
